@@ -383,7 +383,58 @@ def run(ctx):
     for _ in range(ctx.n(140, 2500)):
         progs = [gen_comp.gen_program(ctx.rng, allow_pow=False, allow_array=False), gen_comp.gen_program(ctx.rng, allow_pow=False, allow_array=False)]
         one_case(ctx, progs)
+        if ctx.rng.random() < 0.3:
+            failed_modification(ctx, progs[0])
     same_named_classes(ctx)
+
+
+class Unresolvable:
+    """a class whose constructor annotation cannot be resolved: composing a model of it raises NameError"""
+
+    def __init__(self, x: "NoSuchType" = 1.0):  # noqa: F821
+        self.x = x
+
+
+def failed_modification(ctx, prog):
+    """a modification that raises half-way (a component that cannot be converted to a model) leaves nothing behind:
+    the same later modifications give the same answers as on a model that never saw the failed call"""
+    import vlib
+    try:
+        a = gen_comp.run_program(prog)["root"]
+        b = gen_comp.run_program(prog)["root"]
+    except Exception:  # noqa
+        return
+    colls = [(x, y) for x, y in zip(reach(a), reach(b)) if isinstance(x, Collection) and isinstance(y, Collection)]
+    if not colls:
+        return
+    x, y = colls[ctx.rng.randrange(len(colls))]
+    failed = 0
+    for bad in (lambda: x.append(Unresolvable), lambda: x.append([Unresolvable]), lambda: setattr(x, "bad_member", {"k": Unresolvable}),
+                lambda: x.__setitem__(0, Unresolvable)):
+        try:
+            bad()
+        except Exception:  # noqa
+            failed += 1
+    if not failed:
+        ctx.hit("failed-modification:none-raised")
+        return
+    case = {"programs": [prog], "label": "failed-modification"}
+    try:
+        for m in (x, y):
+            m.append(af.Model(vlib.P1))
+            m.append(af.Model(vlib.P2))
+        ra, rb = answer(a), answer(b)
+        na = sorted(k for k in vars(a.instance_from_prior_medians(ignore_prior_limits=True)) if k != "id")
+        nb = sorted(k for k in vars(b.instance_from_prior_medians(ignore_prior_limits=True)) if k != "id")
+    except Exception as e:  # noqa
+        ctx.hit("failed-modification:probe-raised:" + type(e).__name__)
+        return
+    ctx.hit("failed-modification:%d-raised" % failed)
+    if "bad_member" in vars(x) or ra != rb or na != nb:
+        ctx.fail("C13-answer-depends-on-failed-operation",
+                 "after a modification that raised, the same later modifications give other answers (paths / names / counts) "
+                 "than on a model that never saw the failed call", case,
+                 {"after_failed_call": str(ra)[:300], "without": str(rb)[:300], "left_behind": "bad_member" in vars(x)})
 
 
 def same_named_classes(ctx):
@@ -418,4 +469,6 @@ def replay(ctx, payload):
     case = payload.get("case") or payload.get("disagreements", [{}])[0].get("case")
     if case.get("label") == "same-named-classes":
         return same_named_classes(ctx)
+    if case.get("label") == "failed-modification":
+        return failed_modification(ctx, case["programs"][0])
     one_case(ctx, case["programs"], label="replay", script={"setup": case["setup"], "ops": case["ops"]})
